@@ -34,8 +34,19 @@ B `user-tables`      -- random user snippet tables of 1..5 snippets (definitions
                         involved (user snippets + 1 for a / img, + 2 for inp -> input); (3) for a name from which no
                         cycle is reachable: expand(name) == expand(definition) and the decorated forms agree as above.
 
-Not checked, and why: `output.reverseAttributes` for decorated aliases (the statement does not define where the alias's
-attributes go in the reversed order); `$` numbering and implicit repeaters *inside* definitions (statement silent);
+B `alias-decorated-options` -- sentence 2 under *output options* (`output.reverseAttributes` alone and combined with
+                        selfClosingStyle / compactBoolean / attributeQuotes / format, and a profile without the reversed order):
+                        built-in names with attribute-bearing decorations, and seeded acyclic user tables whose definitions have
+                        1..4 top-level elements with attributes of their own.  Two oracles: (1) alias form == definition
+                        spelled out, compared *modulo the order of the attributes inside each tag* when the reversed order is
+                        on (the statement does not say where the alias's attributes go there, but it does say which element
+                        gets which attributes); (2) "applied to the top-level elements": an alias whose definition is
+                        E1+...+En must expand exactly like the n one-element aliases zq1 -> E1 ... zqn -> En written side
+                        by side with the same decoration.
+
+Not checked, and why: the *position* of the alias's attributes among the definition's under `output.reverseAttributes` (the
+statement does not define it; which element gets which attributes IS checked, see alias-decorated-options); `$` numbering and
+implicit repeaters *inside* definitions (statement silent);
 alias == definition for names on a cycle (the cycle cut necessarily breaks the equation one level down); wrap text.
 """
 import json
@@ -55,31 +66,39 @@ def raw_tables():
     return {'html': H, 'xsl': X, 'pug': P}
 
 
+_DEFS = {}
+
+
 def definitions(syntax):
     """name -> definition for a syntax, from the raw tables (own `|` splitting)"""
+    key = syntax if syntax in ('xsl', 'pug') else 'html'
+    if key in _DEFS:
+        return _DEFS[key]           # read-only for all callers
     raw = raw_tables()
     out = {}
     for t in ['html'] + ([syntax] if syntax in ('xsl', 'pug') else []):
         for k, v in raw[t].items():
             for part in k.split('|'):
                 out[part] = v
+    _DEFS[key] = out
     return out
 
 
 _TIMEOUTS = [0]
+_MEMERRS = [0]
 _LIMITED = []
 
 
-def _limit_memory():
-    """once per process: cap the data segment at 3 GB (a regular run needs < 100 MB per worker). On a tree where a corrupted
+def _limit_memory(lower=None):
+    """once per process (again with `lower` after repeated MemoryErrors, see _timed): cap the data segment at 3 GB (a regular run needs < 100 MB per worker). On a tree where a corrupted
     shared object makes expansions grow exponentially, a call can allocate gigabytes before the CPU-time alarm fires; with the
     cap it gets a MemoryError instead (reported like any other difference) and the machine is not driven into swap"""
-    if not _LIMITED:
+    if not _LIMITED or lower:
         import resource
         _LIMITED.append(True)
         try:
             soft, hard = resource.getrlimit(resource.RLIMIT_DATA)
-            cap = 3 << 30
+            cap = lower or (3 << 30)
             if hard != resource.RLIM_INFINITY:
                 cap = min(cap, hard)
             resource.setrlimit(resource.RLIMIT_DATA, (cap, hard))
@@ -117,6 +136,14 @@ def _timed(f, what):
     except _Timeout:
         _TIMEOUTS[0] += 1
         raise _Slow('%s did not return within %.0f s of CPU time' % (what, TIMEOUT))
+    except MemoryError:
+        # reported like a call that does not return; after 2 of them in this process the cap drops to 768 MB so that a tree
+        # on which merged values grow without bound fails fast instead of filling 3 GB per case
+        _MEMERRS[0] += 1
+        if _MEMERRS[0] == 2:
+            _limit_memory(768 << 20)
+        raise _Slow('%s ran out of memory (data segment capped at %s; a regular call needs < 100 MB)' % (
+            what, '3 GB' if _MEMERRS[0] <= 2 else '768 MB'))
 
 
 def _reports_slow(check):
@@ -758,6 +785,270 @@ def gen_after_cases():
                     yield h, syntax, names[i:i + 30], share
 
 
+# ------------------------------------------------------------------------------------------------ decorated aliases under options
+# Sentence 2 ("attributes ... written on the alias are applied to the top-level elements of the definition") does not depend
+# on the output options.  The statement does not say where the alias's attributes are placed among the element's own ones when
+# `output.reverseAttributes` is on, so there the comparison with the spelled-out definition is made modulo the order of the
+# attributes inside each tag (which element carries which attributes, and everything else, is compared exactly) and only when
+# no attribute name is written on both the alias and the element (which value wins there depends on the order).  The second
+# oracle needs no spelling at all: for a definition E1+...+En the alias must expand like the n one-element aliases
+# zq1 -> E1, ..., zqn -> En side by side with the same decoration (exact string comparison, every profile).
+OPTION_PROFILES = [
+    {'output.reverseAttributes': True},
+    {'output.reverseAttributes': True, 'output.selfClosingStyle': 'xhtml', 'output.compactBoolean': True},
+    {'output.reverseAttributes': True, 'output.attributeQuotes': 'single', 'output.format': False},
+    {'output.selfClosingStyle': 'xml', 'output.compactBoolean': True, 'output.attributeQuotes': 'single'},
+]
+PART_NAMES = ['zq1', 'zq2', 'zq3', 'zq4', 'zq5', 'zq6']
+
+_TAG = None
+
+
+def norm_tags(out):
+    "the output with the attributes of every tag sorted (names with their values); everything else unchanged"
+    global _TAG
+    import re
+    if _TAG is None:
+        _TAG = re.compile(r'''<([A-Za-z_][^\s<>/'"=]*)((?:\s+[^\s<>='"/]+(?:=(?:"[^"]*"|'[^']*'|\{[^{}]*\}|[^\s<>'"]+))?)*)(\s*/?)>''')
+        _TAG_ATTR = re.compile(r'''[^\s<>='"/]+(?:=(?:"[^"]*"|'[^']*'|\{[^{}]*\}|[^\s<>'"]+))?''')
+        norm_tags.attr = _TAG_ATTR
+
+    def one(m):
+        attrs = sorted(norm_tags.attr.findall(m.group(2)))
+        return '<' + m.group(1) + ''.join(' ' + a for a in attrs) + m.group(3) + '>'
+    return _TAG.sub(one, out)
+
+
+def seg_parts(seg):
+    """(element name, [attribute names written on the element, `class` / `id` for the shorthands]) of one element text;
+    own scanner (quotes inside [...], `{...}` text skipped)"""
+    import re
+    m = re.match(r'[A-Za-z!][\w:!-]*', seg)
+    name = m.group(0) if m else ''
+    i = len(name)
+    names = []
+    while i < len(seg):
+        ch = seg[i]
+        if ch == '{':
+            depth = 0
+            while i < len(seg):
+                depth += (seg[i] == '{') - (seg[i] == '}')
+                i += 1
+                if depth == 0:
+                    break
+            continue
+        if ch in '.#':
+            m = re.match(r'[\w$@-]+', seg[i + 1:])
+            names.append('class' if ch == '.' else 'id')
+            i += 1 + (len(m.group(0)) if m else 0)
+            continue
+        if ch == '[':
+            i += 1
+            tok, quote, in_value = [], None, False
+            while i < len(seg):
+                c = seg[i]
+                if quote:
+                    if c == quote:
+                        quote = None
+                elif c in '"\'':
+                    quote = c
+                elif c == '=':
+                    in_value = True
+                elif c in ' \t\n]':
+                    if tok:
+                        names.append(''.join(tok).lstrip('!').rstrip('.'))
+                    tok, in_value = [], False
+                    if c == ']':
+                        break
+                elif not in_value:
+                    tok.append(c)
+                i += 1
+            i += 1
+            continue
+        i += 1
+    return name, names
+
+
+def top_attr_names(defn, defs, _seen=()):
+    """attribute names that the top-level elements of a definition carry, including those that come from the definitions of
+    top-level elements that are aliases themselves; None if the shape is not analysed (`^`, group)"""
+    st = split_top(defn)
+    if st is None:
+        return None
+    out = set()
+    for seg in st[0]:
+        if not seg or seg[0] == '(':
+            return None
+        name, names = seg_parts(seg)
+        out.update(names)
+        if name in defs and name not in _seen:
+            inner = top_attr_names(defs[name], defs, _seen + (name,))
+            if inner is None:
+                return None
+            out.update(inner)
+    return out
+
+
+def _ctx_forms(x, ys, context, child):
+    "alias form x and spelled-out forms ys placed in a surrounding abbreviation (same rules as check_decorated)"
+    if context != '%s':
+        ys = ['(' + y + ')' for y in ys]
+        if child and not context.endswith('%s'):
+            x = '(' + x + ')'
+    return context % x, [context % y for y in ys]
+
+
+def opts_plan(syntax, name, defn, deco, context, snippets, options):
+    """what is compared for one case: {'x': alias form, 'spelled': text or None, 'split': (text, extra snippets) or None,
+    'modulo': bool}; None if nothing can be compared (trivial case)"""
+    attrs, text, close, rep, child = deco
+    sp = spell(defn, attrs, text, close, rep, child)
+    if sp is None:
+        return None
+    defs = _nested_defs(syntax, snippets)
+    reverse = bool(options.get('output.reverseAttributes'))
+    x = alias_form(name, attrs, text, close, rep, child)
+    spelled = sp
+    if reverse:
+        own = top_attr_names(defn, defs)
+        written = set(seg_parts('e' + attrs)[1])
+        if own is None or (own & written):
+            spelled = None
+    split = None
+    tops, tail = split_top(defn)
+    if len(tops) >= 2 and len(tops) <= len(PART_NAMES) and not any(p in defs for p in PART_NAMES):
+        parts = {PART_NAMES[i]: t for i, t in enumerate(tops)}
+        parts[PART_NAMES[len(tops) - 1]] += tail
+        z = spell('+'.join(PART_NAMES[:len(tops)]), attrs, text, close, rep, child)
+        split = [z, parts]
+    if spelled is None and split is None:
+        return None
+    ys = [spelled or '', split[0] if split else '']
+    x, ys = _ctx_forms(x, ys, context, child)
+    return {'x': x, 'spelled': ys[0] if spelled else None, 'split': [ys[1], split[1]] if split else None, 'modulo': reverse}
+
+
+@_reports_slow
+def check_decorated_opts(syntax, name, defn, deco, context, snippets, options):
+    plan = opts_plan(syntax, name, defn, deco, context, snippets, options)
+    if plan is None:
+        return None
+    extra = {'options': options}
+    if snippets:
+        extra['snippets'] = snippets
+    where = 'syntax %s options %s%s: alias %r has definition %r; ' % (syntax, json.dumps(options, sort_keys=True),
+                                                                     ' snippets %r' % snippets if snippets else '', name, defn)
+    a = _expand(plan['x'], syntax, extra)
+    if plan['spelled'] is not None:
+        b = _expand(plan['spelled'], syntax, extra)
+        if (norm_tags(a) != norm_tags(b)) if plan['modulo'] else (a != b):
+            return where + 'expand(%r) = %r but with the definition spelled out expand(%r) = %r%s' % (
+                plan['x'], a, plan['spelled'], b, ' (compared modulo the order of the attributes inside each tag)' if plan['modulo'] else '')
+    if plan['split'] is not None:
+        z, parts = plan['split']
+        extra2 = dict(extra)
+        extra2['snippets'] = dict(snippets or {})
+        extra2['snippets'].update(parts)
+        c = _expand(z, syntax, extra2)
+        if a != c:
+            return where + 'expand(%r) = %r but one alias per top-level element of the definition (%s) gives expand(%r) = %r' % (
+                plan['x'], a, ', '.join('%s -> %r' % kv for kv in sorted(parts.items())), z, c)
+    return None
+
+
+def opts_is_nontrivial(args):
+    return opts_plan(*args) is not None
+
+
+ATTR_DECORATIONS = [d for d in DECORATIONS if d[0] and '$' not in d[0]] + [
+    ('[x=y r="a b"]', '', False, '', '>b'),
+    ('#i[x]', '{T}', False, '', ''),
+]
+
+# user tables: attribute pools.  Flavour `defs` writes class names in the definitions only, `alias` on the alias only,
+# `both` on both sides (also with several top-level elements: the shared value list that made `pp.c.d` with
+# pp = p+p print class="c d d" was repaired in /repo, fix f38c84a, and is now part of what this clause demands)
+DEF_ATTRS = ['[t=1]', '[s=2]', '[href=x]', '[lang=en]', '[title]', '[u=0]', '#j', '[data-a="p q"]', '[w]', '[t=1 s=2]']
+DEF_CLASS_ATTRS = ['.a', '.b', '.a.b', '.a[t=1]']
+ALIAS_ATTRS = ['[u=3]', '[u=3 w=4]', '[title=T]', '#i', '[v]', '[r=1 href=z]', '[m="a b"]', '[u=3][n=5]']
+ALIAS_CLASS_ATTRS = ['.k', '#i.k', '[u=3].k']
+ALIAS_2CLASS_ATTRS = ['.k.m', '.k[class=m]']
+ALIAS_REST = [('', False, '', ''), ('', False, '', ''), ('{T}', False, '', ''), ('', False, '*2', ''), ('', False, '', '>b'),
+              ('', True, '', ''), ('{hi}', False, '*2', '>b+i'), ('', False, '*3', '>b>i')]
+OPT_CONTEXTS = ['p>%s+q', 'div>%s', '(%s)*2', '%s+q', 'p*2>%s']
+
+
+def gen_opt_element(rnd, names, pool):
+    s = rnd.choice(names)
+    r = rnd.random()
+    if r < 0.7:
+        s += ''.join(rnd.sample(pool, 1 if r < 0.5 else 2))
+    if rnd.random() < 0.15:
+        s += '{t}'
+    return s
+
+
+def gen_opt_table(rnd):
+    """(flavour, table): 1..3 acyclic user snippets x y z whose definitions have 1..4 top-level elements with attributes of
+    their own (element names: fresh names, a / img, the user names before it), optionally with children below"""
+    flavour = rnd.choice(['defs', 'defs', 'alias', 'alias', 'both'])
+    pool = DEF_ATTRS + (DEF_CLASS_ATTRS * 2 if flavour != 'alias' else [])
+    n = rnd.randint(1, 3)
+    user = USER_NAMES[:n]
+    table = {}
+    for i, u in enumerate(user):
+        names = user[:i] * 2 + FRESH + ['a', 'img', 'k1']
+        k = 1 if rnd.random() < 0.2 else rnd.choice([2, 2, 2, 3, 3, 4])
+        d = '+'.join(gen_opt_element(rnd, names, pool) for _ in range(k))
+        r = rnd.random()
+        if r < 0.4:
+            d += '>' + '+'.join(gen_opt_element(rnd, names, pool) for _ in range(rnd.choice([1, 1, 2])))
+            if r < 0.12:
+                d += '>' + gen_opt_element(rnd, names, pool)
+        table[u] = d
+    return flavour, table
+
+
+FIXED_OPT_TABLES = [
+    ('alias', {'x': 'k1[t=1]+k2[s=2]'}),
+    ('alias', {'x': 'k1[t=1]+k2+k3[lang=en]>b[r=1]'}),
+    ('alias', {'x': 'a+img'}),
+    ('alias', {'x': 'k1[t=1]+k2[s=2]', 'y': 'div>x[k=v]', 'z': 'x[k=v]+y[w]'}),
+    ('defs', {'x': 'k1.a+k1.b'}),
+    ('defs', {'x': 'k1.a[t=1]+a.b', 'y': 'x[s=2]+x#j'}),
+    ('both', {'x': 'k1.a[t=1]', 'y': 'x.b>k2.a'}),
+    # class names on both sides of a definition with several top-level elements (fix f38c84a in /repo: the value list
+    # the classes are merged into used to be shared by the top-level elements)
+    ('both', {'x': 'k1+k1'}),
+    ('both', {'x': 'k1.a+k2.b'}),
+    ('both', {'x': 'k1.a+k2.b+k3', 'y': 'x.c+x'}),
+]
+
+
+def gen_opt_cases(seed, quick):
+    rnd = random.Random('c14-opts-%d' % seed)
+    raw = raw_tables()
+    # built-in names
+    for s in ('html', 'xsl', 'pug') if quick else ('html', 'xsl', 'pug', 'xml', 'jsx'):
+        defs = definitions(s)
+        names = sorted(defs) if s in ('html', 'xml', 'jsx') else sorted(set(k2 for k in raw[s] for k2 in k.split('|')))
+        for n in names:
+            for deco in ATTR_DECORATIONS:
+                for ctx in ('%s', 'ul>%s+q'):
+                    for o in (OPTION_PROFILES if ctx == '%s' else OPTION_PROFILES[:1]):
+                        yield s, n, defs[n], list(deco), ctx, None, o
+    # user tables
+    tables = FIXED_OPT_TABLES + [gen_opt_table(rnd) for _ in range(130 if quick else 4000)]
+    for flavour, t in tables:
+        pool = ALIAS_ATTRS + (ALIAS_CLASS_ATTRS * 2 if flavour != 'defs' else []) + (ALIAS_2CLASS_ATTRS * 2 if flavour == 'both' else [])
+        for name in sorted(t):
+            for _ in range(5):
+                deco = [rnd.choice(pool)] + list(rnd.choice(ALIAS_REST))
+                for ctx in ('%s', rnd.choice(OPT_CONTEXTS)):
+                    for o in OPTION_PROFILES:
+                        yield 'html', name, t[name], deco, ctx, t, o
+
+
 # ------------------------------------------------------------------------------------------------ run
 def run(tier, seed):
     quick = tier == 'quick'
@@ -804,6 +1095,21 @@ def run(tier, seed):
                'a case is one abbreviation with two alias occurrences: it must expand like the abbreviation with both, only the outer, '
                'only the inner occurrence replaced by the definition (children of the outer alias appended at its deepest element)', exhaustive=False)
     run_parallel(c, 'bounded.c14', 'check_nested', real, chunk=100)
+    out.append(c.done())
+
+    ocases = list(gen_opt_cases(seed, quick))
+    real = [a for a in ocases if opts_is_nontrivial(a)]
+    c = Clause('alias-decorated-options', 'B', 'decorated aliases under %d option profiles (output.reverseAttributes alone / with selfClosingStyle, '
+               'compactBoolean / with attributeQuotes, format; one profile in the default order): every built-in name (html: all; xsl / pug: own '
+               'tables%s) x %d attribute-bearing decorations; %d hand-written + %s seeded acyclic user tables of 1..3 snippets whose definitions have '
+               '1..4 top-level elements with attributes of their own (and children below), 5 seeded decorations (attributes + text / `/` / '
+               'repeater / children) per name, alone and inside a surrounding abbreviation' % (
+                   len(OPTION_PROFILES), '' if quick else '; thorough: also xml, jsx', len(ATTR_DECORATIONS), len(FIXED_OPT_TABLES), '130' if quick else '4000'),
+               '%d (syntax, name, decoration, context, table, options) cases, %d skipped (no textual spelling, or reversed order with an attribute name '
+               'written on both sides and a single top-level element), %d evaluated' % (len(ocases), len(ocases) - len(real), len(real)),
+               'alias form vs definition spelled out (modulo attribute order inside each tag when the reversed order is on; exact otherwise) '
+               'and, for definitions E1+...+En, alias form vs the n one-element aliases side by side (exact)', exhaustive=False)
+    run_parallel(c, 'bounded.c14', 'check_decorated_opts', real, chunk=150)
     out.append(c.done())
 
     acases = list(gen_after_cases())
